@@ -233,7 +233,7 @@ func (en *Env) eval(ex Expr) TV {
 			}
 			n, _ := numOf(t)
 			e.nfresh++
-			bv := Var(fmt.Sprintf("%s!q%d", q.Name, e.nfresh), e.ar.Sort(n))
+			bv := Var(fmt.Sprintf("$b_%s_%d", q.Name, e.nfresh), e.ar.Sort(n))
 			bound = append(bound, bv)
 			sub.vars[q.Name] = TV{V: VScalar{bv}, T: t}
 		}
@@ -351,7 +351,17 @@ func (en *Env) ghostLoad(name string, h *Term) TV {
 	for i, l := range ls {
 		ts[i] = SelectD(heapGetIn(en.heap, "Gh_"+name[1:]+"_"+l.Name, e.fldSort(l.S)), h)
 	}
-	return TV{V: e.fromLeaves(t, ts), T: t}
+	v := e.fromLeaves(t, ts)
+	if len(en.bound) == 0 {
+		// typing facts of ghost values (lengths are non-negative, ...) hold in every state
+		switch gv := v.(type) {
+		case VString:
+			en.st.assume(en.st.stringWF(gv))
+		case VSlice:
+			en.st.assume(en.st.sliceWF(gv))
+		}
+	}
+	return TV{V: v, T: t}
 }
 
 func (en *Env) selector(b TV, sel string) TV {
@@ -831,7 +841,7 @@ func (en *Env) call(c ECall) TV {
 				return TV{V: VScalar{And(cs...)}, T: boolT}
 			}
 			e.nfresh++
-			j := Var(fmt.Sprintf("j!q%d", e.nfresh), e.ar.I())
+			j := Var(fmt.Sprintf("$b_j_%d", e.nfresh), e.ar.I())
 			in := And(e.ar.Cmp(token.LEQ, tInt, aBase, j), e.ar.Cmp(token.LSS, tInt, j, e.ar.Bin(token.ADD, tInt, aBase, n)))
 			sel := Select(aArr, j)
 			body := Implies(in, Eq(sel, Select(bArr, e.ar.Bin(token.ADD, tInt, bBase, e.ar.Bin(token.SUB, tInt, j, aBase)))))
